@@ -105,6 +105,13 @@ PROPS = {
         "race": True, "mismatch_is_violation": True,
         "rule": WORLD_RULE + "; batch sizes {0,1,2,3,5,8,13,21,34,64} round robin, GOMAXPROCS in {1,2,4,16}, 25% with 2-4 concurrent requests. non-trivial: batch of at least 2. distinct: hash of (op,args)", "trusted_base": VALIDATOR_TRUSTED,
     },
+    "C10": {
+        "manifest": {"text": "Theorems over an abstract canonical codec (round trip + injectivity as hypotheses, satisfiable: idCodec) and any signature scheme: C10_same (the transported receipt is the issued one: result value and side, ran, effects, metadata, issuer, proofs), C10_verifies (its signature over the canonical encoding of the outcome verifies after transport), C10_tamper (Ideal, Binding: a receipt carrying an issued signature verifies only with exactly the issued outcome and only under the issuer's key), C10_sig_code (no other algorithm code). Partial: the DAG-CBOR codec itself is a hypothesis, not yet a Lean model. Correspondence with real Ed25519 / RSA / wrapped signers: receipts over ok / error results of every IPLD kind (typed, untyped and Rebind readers), link and embedded fork / join effects, metadata, link and embedded proofs, embedded or bare ran; carried in an agent message through the CAR response codec; every accessor compared with what was issued; the signature re-verified from the transported root block decoded as a plain IPLD node and re-encoded with dag-cbor; then one of 13 single alterations of the outcome or signature, re-encoded and re-decoded, must not verify.", "design_ref": "5.10", "note": "trusted: Lean kernel; the Codec hypotheses stand for go-ipld-prime's dag-cbor (canonical map ordering) - validated, not proved; Ed25519/RSA idealised in theorems, real in the harness; null values are excluded (C07/F3)"},
+        "obligations": ob("UcantoModel.Props.C10", "Rcpt.C10_same", "Rcpt.C10_verifies", "Rcpt.C10_tamper", "Rcpt.C10_sig_code"),
+        "mismatch_is_violation": True,
+        "rule": "receipts: signer in {12 Ed25519, 2 RSA, 6 wrapped} x ok/error x value (random nested IPLD for the untyped reader, a {n,status} struct for typed / Rebind) x 0-2 forks (link/embedded) x join {none, link, embedded} x meta x 0-2 proofs (link/embedded) x ran {embedded, bare}; alteration round robin over 14 kinds. non-trivial: an alteration is applied. distinct: hash of the spec",
+        "trusted_base": ["Props/C10.lean Codec hypotheses", "harness re-verification through go-ipld-prime dag-cbor"],
+    },
     "C11": {
         "manifest": {"text": "Theorems (the part that is this repository's own logic): C11_terminates (on well-founded proof DAGs the mutually recursive Claim/Validate/VerifySession/Authorize search finishes within an explicit fuel bound), attCandidates_safe (the token under verification and capability-less siblings are never candidate attestations), C11_pinned_divergence (machine-checked record: with the pinned candidate filter a lone non-key-issued ucan/attest token runs out of every fuel - the stack overflow), C11_did_string_total / C11_sig_total (no slicing past short DID / signature bytes, with the pinned panics recorded), C11_handle_total, C11_receipts_kept. Partial: third-party decoders (go-car header CBOR, bindnode, dag-cbor/json) are not modelled. Exploration in crash-isolating worker processes (a goroutine panic, stack overflow or fatal error kills only the worker and is attributed to the request): every one of 39 field malformations (issuer, audience, signature, capabilities, caveats, proofs, times, version, facts, nonce, whole block replaced or bit-flipped) at every chain position, singly and in pairs, inside otherwise valid CAR requests that also carry a clean invocation; self-attesting and capability-less adversarial tokens; random byte edits of valid requests; the byte-level DID and signature functions exhaustively. Oracle: outcome is a status or an error value, and a 200 response holds a receipt for every invocation of the request.", "design_ref": "5.11", "note": "trusted: Lean kernel; the model makes the repository's own index/slice/nil/recursion sites explicit - a site the model does not name is covered only by the exploration; third-party decoding is outside the model"},
         "obligations": ob("UcantoModel.Props.C11", "C11.C11_terminates", "C11.attCandidates_safe", "C11.C11_pinned_divergence", "C11.C11_fixed_no_self", "C11.C11_did_string_total",
